@@ -6,4 +6,67 @@ LEVEL_TEXT = ("generated model loaders (real generator output, captured per prog
 
 def extra_checks(tier, seed):
     from genprog.check import extra_for_property
-    return [extra_for_property("C08", tier, seed)]
+    return [extra_for_property("C08", tier, seed), defaults_on_fabricating_mappings()]
+
+
+def defaults_on_fabricating_mappings():
+    """Bounded probe (labelled bounded): a field ABSENT from the input holds the declared default whatever mapping class carries the
+    input — including mappings that fabricate a value when an absent key is subscripted (collections.defaultdict, Counter, a dict
+    subclass with __missing__), which are outside the data universe D of the proofs.  Required fields are always present here (their
+    extraction on such mappings is the recorded C20 finding)."""
+    import collections
+    import itertools
+    import types
+    from dataclasses import dataclass, field
+    from decimal import Decimal
+
+    from adaptix import DebugTrail, Retort
+
+    @dataclass
+    class M:
+        a: int
+        b: list = field(default_factory=lambda: ["untagged"])
+        c: Decimal = Decimal("1")
+        d: object = None
+        e: int = 5
+
+    class Missing(dict):
+        def __missing__(self, key):
+            return []
+
+    kinds = {
+        "dict": dict, "OrderedDict": collections.OrderedDict, "mappingproxy": lambda d: types.MappingProxyType(dict(d)),
+        "defaultdict(int)": lambda d: collections.defaultdict(int, d), "defaultdict(list)": lambda d: collections.defaultdict(list, d),
+        "Counter": collections.Counter, "dict-with-__missing__": Missing, "ChainMap": lambda d: collections.ChainMap(dict(d)),
+    }
+    values = {"b": ["x"], "c": "2.5", "d": 7, "e": 9}
+    expected_present = {"b": ["x"], "c": Decimal("2.5"), "d": 7, "e": 9}
+    defaults = {"b": ["untagged"], "c": Decimal("1"), "d": None, "e": 5}
+    viol, n = [], 0
+    for dt in DebugTrail:
+        loader = Retort(debug_trail=dt).get_loader(M)
+        for kname, mk in kinds.items():
+            for present in itertools.chain.from_iterable(itertools.combinations("bcde", k) for k in range(0, 5)):
+                n += 1
+                raw = {"a": 1, **{k: values[k] for k in present}}
+                try:
+                    obj = loader(mk(raw))
+                    outcome = {k: getattr(obj, k) for k in "bcde"}
+                except Exception as e:  # noqa: BLE001
+                    outcome = {"error": f"{type(e).__name__}: {e}"[:120]}
+                bad = []
+                for k in "bcde":
+                    want = expected_present[k] if k in present else defaults[k]
+                    got = outcome.get(k, outcome.get("error"))
+                    if "error" in outcome or type(got) is not type(want) or got != want:
+                        bad.append((k, got, want))
+                if bad:
+                    viol.append({"unit": "model loader: defaults on mapping kinds", "clause": "absent-field-gets-declared-default",
+                                 "witness": f"{dt.name}; {kname}; present={''.join(present) or '-'}",
+                                 "w": {"input": f"{kname}({raw!r}) loaded as M(a, b=['untagged'], c=Decimal('1'), d=None, e=5)"[:300],
+                                       "native_outcome": "; ".join(f"{k}: got {g!r}, the model itself gives {w!r}" for k, g, w in bad)[:300]}})
+    return {"obligations": 0, "discharged": 0, "violations": viol, "solver_time": 0.0,
+            "bounded": [{"unit": "defaults of absent fields on every mapping kind (incl. mappings with __missing__; outside D)",
+                         "bound": f"{n} inputs: 8 mapping classes x every subset of 4 optional keys x 3 debug-trail modes"}],
+            "samples": [{"mapping_inputs": n, "wrong_defaults": len(viol)}],
+            "assumptions": ["mappings that fabricate values on subscription are outside D; probed separately (bounded)"]}
